@@ -2122,6 +2122,8 @@ def _compute_arguments_dict_matching_score(args: Any, ref_args: Any) -> float:
         # Fuzzy match since number of arguments are not the same
         score *= 0.9 ** (len(args) - len(ref_args))
     elif isinstance(ref_args, set):
+        if len(ref_args) > len(args):
+            return 0.0
         for ref_val in ref_args:
             temp_score = 0.0
             for val in args:
